@@ -12,25 +12,25 @@ Import ListNotations.
 
 Inductive fn :=
 (* core.list *)
-| L_clear | L_contains | L_extend_list | L_extend_tuple | L_extend_iter | L_fill | L_first | L_get
+| L_clear | L_contains | L_extend_list | L_extend_tuple | L_extend_iter | L_extend_gen | L_fill | L_first | L_get
 | L_insert | L_is_empty | L_last | L_pop | L_push | L_remove | L_resize | L_resize_with
 | L_retain_fn | L_retain_value | L_reverse | L_sort | L_sort_by | L_swap | L_to_tuple | L_transform
 (* VM / koto.* on lists *)
 | L_size | L_copy | L_index | L_index_range | L_index_assign | L_temp_index | L_slice | L_add | L_eq
 | L_iter | L_display
 (* core.map *)
-| M_clear | M_contains_key | M_extend_map | M_extend_iter | M_get | M_get_index | M_insert
+| M_clear | M_contains_key | M_extend_map | M_extend_iter | M_extend_gen | M_get | M_get_index | M_insert
 | M_is_empty | M_remove | M_sort | M_sort_by | M_update
 (* VM on maps *)
 | M_size | M_access | M_access_assign | M_index | M_index_assign | M_add | M_eq | M_iter.
 
 Definition all_fns : list fn :=
-  [L_clear; L_contains; L_extend_list; L_extend_tuple; L_extend_iter; L_fill; L_first; L_get;
+  [L_clear; L_contains; L_extend_list; L_extend_tuple; L_extend_iter; L_extend_gen; L_fill; L_first; L_get;
    L_insert; L_is_empty; L_last; L_pop; L_push; L_remove; L_resize; L_resize_with;
    L_retain_fn; L_retain_value; L_reverse; L_sort; L_sort_by; L_swap; L_to_tuple; L_transform;
    L_size; L_copy; L_index; L_index_range; L_index_assign; L_temp_index; L_slice; L_add; L_eq;
    L_iter; L_display;
-   M_clear; M_contains_key; M_extend_map; M_extend_iter; M_get; M_get_index; M_insert;
+   M_clear; M_contains_key; M_extend_map; M_extend_iter; M_extend_gen; M_get; M_get_index; M_insert;
    M_is_empty; M_remove; M_sort; M_sort_by; M_update;
    M_size; M_access; M_access_assign; M_index; M_index_assign; M_add; M_eq; M_iter].
 
@@ -51,6 +51,10 @@ Definition footprint_of (f : fn) : footprint :=
   (* let mut list_data = l.data_mut(); for value in iterator { .. } — the iterator over another
      list takes data() per element (ListIterator::get_output) *)
   | L_extend_iter => [Seq [A Self Ex]; Loop [A Other Sh; R Other Sh]; Seq [R Self Ex]]
+  (* the same generic-iterable arm with an argument whose iterator takes no container guard (range,
+     adaptor chain over a range, string, private map, generator): ONE data_mut() guard (`let mut
+     list_data`) around reserve and the whole push loop; the iterator's code runs under it *)
+  | L_extend_gen => [Seq ex_user]
   | L_fill => [Seq ex]
   | L_first => [Seq sh]
   | L_get => [Seq sh]
@@ -105,6 +109,8 @@ Definition footprint_of (f : fn) : footprint :=
   (* m.data_mut().extend(other.data().iter().map(..)) *)
   | M_extend_map => [Seq [A Self Ex; A Other Sh; R Other Sh; R Self Ex]]
   | M_extend_iter => [Seq [A Self Ex]; Loop [A Other Sh; R Other Sh]; Seq [R Self Ex]]
+  (* generic-iterable arm, guard-free iterator: `let mut map_data = m.data_mut()` around the loop *)
+  | M_extend_gen => [Seq ex_user]
   | M_get => [Seq sh]
   | M_get_index => [Seq sh]
   | M_insert => [Seq ex]
@@ -133,7 +139,8 @@ Definition footprint_of (f : fn) : footprint :=
 Definition fn_eqb (a b : fn) : bool :=
   match a, b with
   | L_clear, L_clear | L_contains, L_contains | L_extend_list, L_extend_list
-  | L_extend_tuple, L_extend_tuple | L_extend_iter, L_extend_iter | L_fill, L_fill
+  | L_extend_tuple, L_extend_tuple | L_extend_iter, L_extend_iter | L_extend_gen, L_extend_gen
+  | M_extend_gen, M_extend_gen | L_fill, L_fill
   | L_first, L_first | L_get, L_get | L_insert, L_insert | L_is_empty, L_is_empty
   | L_last, L_last | L_pop, L_pop | L_push, L_push | L_remove, L_remove | L_resize, L_resize
   | L_resize_with, L_resize_with | L_retain_fn, L_retain_fn | L_retain_value, L_retain_value
@@ -182,4 +189,91 @@ Definition self_alias_recursive_read_fns : list fn := [L_add; L_eq; M_eq].
 (* foreign code runs while a guard is alive: flat only if that code takes no container guard
    (true for numbers / strings / bools; not for callbacks that touch the same container) *)
 Definition user_inside_fns : list fn :=
-  [L_contains; L_retain_value; L_sort; L_sort_by; L_transform; L_eq; L_display; M_sort_by; M_eq].
+  [L_contains; L_extend_gen; L_retain_value; L_sort; L_sort_by; L_transform; L_eq; L_display;
+   M_extend_gen; M_sort_by; M_eq].
+
+(* ---- borrow pins ---------------------------------------------------------------------------
+   What tools/k2v_locks.py extracts from the TEXT of each core-library arm (GenBorrows.v, rebuilt
+   from the checkout on every run): the borrows in textual order, each with its mode and whether it
+   is taken INSIDE the body of a `for` loop of that arm (a borrow in a `for` header is evaluated
+   once).  Sh also for the KList/KMap helpers that borrow internally (`l.len()`, `m.is_empty()`,
+   `map.get(..)`).  Alternative match branches of one arm all appear (path-insensitive).
+   This pinned copy must be EQUAL to the regenerated table (theorem borrow_pins_match): a borrow that
+   moves into a loop body, appears or disappears breaks the obligation. *)
+Definition pin := (fn * list (mode * bool))%type.
+
+Definition pinned_borrows : list pin :=
+  [ (L_clear, [(Ex, false)]);
+    (L_contains, [(Sh, false)]);
+    (L_extend_list, [(Ex, false); (Sh, false)]);
+    (L_extend_tuple, [(Ex, false)]);
+    (L_extend_gen, [(Ex, false)]);
+    (L_fill, [(Ex, false)]);
+    (L_first, [(Sh, false)]);
+    (L_get, [(Sh, false)]);
+    (L_insert, [(Sh, false); (Ex, false)]);
+    (L_is_empty, [(Sh, false)]);
+    (L_last, [(Sh, false)]);
+    (L_pop, [(Ex, false)]);
+    (L_push, [(Ex, false)]);
+    (L_remove, [(Sh, false); (Ex, false)]);
+    (L_resize, [(Ex, false)]);
+    (L_resize, [(Ex, false)]);
+    (L_resize_with, [(Sh, false); (Ex, false); (Ex, false); (Ex, true)]);
+    (L_retain_fn, [(Sh, false); (Sh, true); (Ex, true); (Ex, false)]);
+    (L_retain_value, [(Ex, false)]);
+    (L_reverse, [(Ex, false)]);
+    (L_sort, [(Ex, false)]);
+    (L_sort_by, [(Sh, false); (Ex, false)]);
+    (L_swap, [(Ex, false); (Ex, false)]);
+    (L_to_tuple, [(Sh, false)]);
+    (L_transform, [(Ex, false)]);
+    (M_clear, [(Ex, false)]);
+    (M_contains_key, [(Sh, false)]);
+    (M_extend_map, [(Ex, false); (Sh, false)]);
+    (M_extend_gen, [(Ex, false)]);
+    (M_get, [(Sh, false)]);
+    (M_get_index, [(Sh, false)]);
+    (M_insert, [(Ex, false)]);
+    (M_insert, [(Ex, false)]);
+    (M_is_empty, [(Sh, false)]);
+    (M_remove, [(Ex, false)]);
+    (M_sort, [(Ex, false)]);
+    (M_sort_by, [(Sh, false); (Ex, false)]);
+    (M_update, [(Sh, false); (Ex, false); (Sh, false); (Ex, false)]) ].
+
+(* what the footprint row says about the same arm: acquisitions in order, flagged when they sit
+   in a Loop segment *)
+Definition seg_acqs (s : seg) : list (mode * bool) :=
+  match s with
+  | Seq es => flat_map (fun e => match e with A _ m => [(m, false)] | _ => [] end) es
+  | Loop b => flat_map (fun e => match e with A _ m => [(m, true)] | _ => [] end) b
+  end.
+Definition row_acqs (f : fn) : list (mode * bool) := flat_map seg_acqs (footprint_of f).
+
+Definition mb_eqb (a b : mode * bool) : bool := mode_eqb (fst a) (fst b) && Bool.eqb (snd a) (snd b).
+
+Fixpoint subseq_mb (a b : list (mode * bool)) : bool :=
+  match a, b with
+  | [], _ => true
+  | _, [] => false
+  | x :: a', y :: b' => if mb_eqb x y then subseq_mb a' b' else subseq_mb a b'
+  end.
+
+(* a pin agrees with its row: the row's acquisitions (with their in-loop flags) are a subsequence
+   of the textual scan (extra entries = alternative branches); the scan has a borrow inside a loop
+   body iff the row has a Loop that acquires; a single-section row has exactly one borrow in its arm *)
+Definition pin_consistent (p : pin) : bool :=
+  let f := fst p in let scan := snd p in
+  subseq_mb (row_acqs f) scan
+  && Bool.eqb (existsb snd scan) (existsb snd (row_acqs f))
+  && (negb (is_single (footprint_of f)) || Nat.eqb (length scan) 1).
+
+Fixpoint pins_eqb (a b : list pin) : bool :=
+  match a, b with
+  | [], [] => true
+  | (f, s) :: a', (g, t) :: b' =>
+      fn_eqb f g && Nat.eqb (length s) (length t) && forallb (fun xy => mb_eqb (fst xy) (snd xy)) (combine s t)
+      && pins_eqb a' b'
+  | _, _ => false
+  end.
